@@ -92,13 +92,28 @@ Proof.
   - (* VDict *) induction t; simpl in *; try discriminate; try (destruct w; discriminate); auto.
 Qed.
 
+Lemma is_opt_plain : forall t, wire_plain t = true -> wire_plain (fst (is_opt t)) = true.
+Proof.
+  induction t; simpl; intros H; try discriminate; auto.
+  destruct (is_opt t) as [inner nullable] eqn:E. simpl in IHt. destruct nullable; simpl; auto.
+Qed.
+
+Lemma is_opt_infer : forall t, infer (fst (is_opt t)) = infer t.
+Proof.
+  induction t; simpl; auto.
+  destruct (is_opt t) as [inner nullable] eqn:E. simpl in IHt. destruct nullable; simpl; auto.
+Qed.
+
+Lemma unwrap_plain : forall u, wire_plain u = true -> wire_plain (unwrap_ann u) = true.
+Proof. destruct u; simpl; auto. Qed.
+
 Lemma deserialize_plain : forall (deser : list N -> option (list N)) t x,
   wire_plain t = true -> deserialize_value deser t x = Accept x.
 Proof.
   intros deser t x Hp. unfold deserialize_value.
-  destruct t; simpl in *; try discriminate; try reflexivity;
-    destruct t; simpl in *; try discriminate; try reflexivity;
-    destruct t; simpl in *; try discriminate; reflexivity.
+  pose proof (unwrap_plain _ (is_opt_plain t Hp)) as Hb.
+  destruct (is_opt t) as [inner nullable]. simpl in Hb.
+  destruct (unwrap_ann inner); simpl in Hb; try discriminate; reflexivity.
 Qed.
 
 (* ------------------------------------------------------------------ frozenset / dict reconstruction *)
@@ -238,9 +253,9 @@ Section Path.
     - rewrite Hd. exact Hb.
   Qed.
 
-  Lemma deserialize_opt : forall t' x, no_opt t' = true ->
+  Lemma deserialize_opt : forall t' x, no_opt t' = true -> no_ann t' = true ->
     deserialize_value deser (TOpt t') x = deserialize_value deser t' x.
-  Proof. intros t' x Hn. destruct t'; try discriminate; reflexivity. Qed.
+  Proof. intros t' x Hn Ha. destruct t'; try discriminate; reflexivity. Qed.
 
   Lemma supported_inner_shape : forall t, supported_inner t = true -> no_opt t = true /\ no_ann t = true.
   Proof. destruct t; simpl; intros H; try discriminate; auto. Qed.
@@ -265,16 +280,17 @@ Section Path.
       + destruct v; try discriminate. unfold one_way. simpl. rewrite arrow_rt_none. reflexivity.
       + assert (has_type t' v = true) as Ht' by (destruct v; try discriminate; exact Ht).
         destruct (core_exact t' v Hn' Hs Ht') as [Hnn Hb].
-        apply one_way_some with (t := t'); auto. intros x. apply deserialize_opt. exact Hn'.
+        apply one_way_some with (t := t'); auto. intros x. apply deserialize_opt; assumption.
   Qed.
 
   (* Annotated[X, m] and Annotated[X, m] | None travel exactly like X and X | None: Optional is stripped first,
      the Annotated wrapper second, in the schema construction and in _deserialize_value alike *)
   Lemma path_ann : forall t' v, no_opt t' = true -> no_ann t' = true ->
     param_path ser deser (TAnn t') v = param_path ser deser t' v /\
-    param_path ser deser (TOpt (TAnn t')) v = param_path ser deser (TOpt t') v.
+    param_path ser deser (TOpt (TAnn t')) v = param_path ser deser (TOpt t') v /\
+    param_path ser deser (TAnn (TOpt t')) v = param_path ser deser (TOpt t') v.
   Proof.
-    intros t' v Hn Ha. destruct t'; try discriminate; split; reflexivity.
+    intros t' v Hn Ha. destruct t'; try discriminate; repeat split; reflexivity.
   Qed.
 
   (* a value of a supported annotation is accepted by the parameter path and arrives unchanged *)
@@ -289,12 +305,18 @@ Section Path.
         try (apply param_path_exact0; [exact Hs|exact Ht]; fail).
       (* TOpt (TAnn t') *)
       simpl in Hs. destruct (supported_inner_shape t' Hs) as [Hn Ha].
-      destruct (path_ann t' v Hn Ha) as [_ ->]. apply param_path_exact0; [exact Hs|].
+      destruct (path_ann t' v Hn Ha) as [_ [-> _]]. apply param_path_exact0; [exact Hs|].
       destruct v; exact Ht.
-    - (* TAnn t' *)
-      simpl in Hs. destruct (supported_inner_shape t1 Hs) as [Hn Ha].
-      destruct (path_ann t1 v Hn Ha) as [-> _]. apply param_path_exact0; [|exact Ht].
-      destruct t1; try discriminate; exact Hs.
+    - (* TAnn t1 *)
+      destruct (no_opt t1) eqn:Hn1.
+      + assert (supported_inner t1 = true) as Hsi by (destruct t1; try discriminate; exact Hs).
+        destruct (supported_inner_shape t1 Hsi) as [Hn Ha].
+        destruct (path_ann t1 v Hn Ha) as [-> _]. apply param_path_exact0; [|exact Ht].
+        destruct t1; try discriminate; exact Hsi.
+      + (* TAnn (TOpt t'): the marker inside the wrapper *)
+        destruct t1 as [sg bits|w| | | |names| | |u tz|u|u|p sc|t'|t'|t'|t'|k w]; try discriminate.
+        simpl in Hs. destruct (supported_inner_shape t' Hs) as [Hn Ha].
+        destruct (path_ann t' v Hn Ha) as [_ [_ ->]]. apply param_path_exact0; [exact Hs|exact Ht].
   Qed.
 
   Lemma result_field_fixed : forall t, result_field true t = param_field t.
@@ -311,12 +333,12 @@ Section Path.
   Qed.
 
   (* None never enters a non-optional position, in either direction *)
-  Lemma none_refused : forall t, no_opt t = true ->
+  Lemma none_refused : forall t, snd (is_opt t) = false ->
     param_path ser deser t VNone = Reject /\ result_path ser deser true t VNone = Reject.
   Proof.
     intros t Hn. unfold result_path. rewrite result_field_fixed. unfold param_path, one_way, param_field.
-    destruct t; simpl in Hn; try discriminate; simpl; auto.
-    destruct (is_data t); auto.
+    destruct (is_opt t) as [inner nullable]. simpl in Hn. subst.
+    destruct (is_data (unwrap_ann inner)); auto.
   Qed.
 
 End Path.
